@@ -428,7 +428,9 @@ pub fn eval<'a, E: Env>(
             } else {
                 else_ast
             };
-            eval(result_ast, env)
+            // The result of the conditional operator is a value, not a
+            // variable that can be assigned to (as in C).
+            into_value(eval(result_ast, env)?, env).map(Term::Value)
         }
     }
 }
